@@ -380,13 +380,35 @@ def upa_ok(ast: tuple, syms: Optional[list[str]] = None, max_states: int = 4000,
 # ---------------------------------------------------------------------------------------------
 # real schemas
 
-def build_schema(models: list[tuple], v11: bool, extra: str = ''):
+def build_schema(models: list[tuple], v11: bool, extra: str = '', oc: Optional[tuple] = None):
+    """oc = (mode, namespace constraint) wraps every model in XSD 1.1 open content"""
     import xmlschema
     cls = xmlschema.XMLSchema11 if v11 else xmlschema.XMLSchema10
     body = [extra]
+    octxt = ''
+    if oc is not None:
+        octxt = (f'<xs:openContent mode="{oc[0]}"><xs:any namespace="{oc[1]}" processContents="lax"/>'
+                 '</xs:openContent>')
     for k, m in enumerate(models):
-        body.append(f'<xs:element name="m{k}"><xs:complexType>{to_xsd(m)}</xs:complexType></xs:element>')
+        body.append(f'<xs:element name="m{k}"><xs:complexType>{octxt}{to_xsd(m)}</xs:complexType></xs:element>')
     return cls(HEAD + '\n'.join(body) + '</xs:schema>', validation='lax')
+
+
+def ref_accepts_oc(ast: tuple, word: list[str], oc: tuple) -> bool:
+    """reference language with open content: interleave = delete any subset of symbols the open
+    wildcard admits; suffix = strip a suffix of such symbols"""
+    wl = ('a', oc[1], 0, None)
+    if oc[0] == 'suffix':
+        for cut in range(len(word), -1, -1):
+            if all(leaf_matches(wl, s) for s in word[cut:]) and ref_accepts(ast, word[:cut]):
+                return True
+        return False
+    idx = [i for i, s in enumerate(word) if leaf_matches(wl, s)]
+    for r in range(len(idx) + 1):
+        for sub in itertools.combinations(idx, r):
+            if ref_accepts(ast, [s for i, s in enumerate(word) if i not in sub]):
+                return True
+    return False
 
 
 def split_qname(name: str) -> list[str]:
